@@ -814,6 +814,9 @@ func (g *Gen) run() {
 		for _, pp := range pkgPaths {
 			invs := g.eng.cs.PkgInv[pp]
 			own := pp == env.pkg.Pkg.Path()
+			if own {
+				invs = append(append([]*Clause{}, invs...), g.eng.cs.PkgInvLocal[pp]...)
+			}
 			if !own && !(g.view.Field && g.eng.imports(env.pkg, pp)) {
 				continue
 			}
